@@ -12,5 +12,6 @@ def run(chk, replay=None):
                        "distinct = distinct projected traces; non-trivial = at least two context switches among owned events")
     chk.prove()
     k1.run_unit(chk, when_all.WhenAllRefElect())
+    for U in when_all.REGELECT_UNITS: k1.run_unit(chk, U())   # when_all_range / stop_when: election + stop-callback registration (RegElect model)
     k2.standard_k2(chk)   # ties the Calc model (Properties_C01_calc.v) to the real algorithms
     k2v2.standard_k2v2(chk)   # second-generation model Calc2 (lifetimes, contexts, more algorithms): tie (theorems: Properties_*_calc2.v)
